@@ -300,9 +300,6 @@ func c08Check[E zzverif.Scalar](v *zzverif.T) {
 			v.Assert("C08.invalid-request-is-an-error", r.Err != nil)
 			return
 		}
-		if r.Err != nil {
-			return // clamping, negative steps etc. may be refused
-		}
 		outShape := make([]int, rank)
 		empty := false
 		dropsUnit := false
@@ -316,8 +313,12 @@ func c08Check[E zzverif.Scalar](v *zzverif.T) {
 			}
 		}
 		if empty {
-			// an empty result cannot be represented; anything but a crash is accepted here
+			// a selection of nothing cannot be represented by the tensor library: it is refused, never answered with data
+			v.Assert("C08.empty-selection-is-refused", r.Err != nil)
 			return
+		}
+		if r.Err != nil {
+			return // clamping, negative steps etc. may be refused
 		}
 		stepped := false
 		for i := 0; i < n; i++ {
@@ -442,6 +443,12 @@ func H_C08(v *zzverif.T) {
 		c08Check[int64](v)
 	case "bool":
 		c08Check[bool](v)
+	case "float64":
+		c08Check[float64](v)
+	case "int32":
+		c08Check[int32](v)
+	case "uint8":
+		c08Check[uint8](v)
 	default:
 		c08Check[float32](v)
 	}
